@@ -22,8 +22,8 @@ theorem matchNode_fresh (g : Graph) (n : NodeRec) (v : String) (kinds : List Str
   simp only [hnode, propsMatch_nil, ebind_ok, List.lookup, epure_ok]
   cases kindsAllOf n.kinds kinds <;> rfl
 
-theorem matchSteps_nil (g : Graph) (st : MState) (cur : Int) (pn pr : List Int) (nb : Bool) (nv : Option String) :
-    matchSteps .none g st cur pn pr nb nv [] = .ok [(st, pn, pr)] := by
+theorem matchSteps_nil (g : Graph) (st : MState) (cur : Int) (pn pr : List Int) (nb : Bool) (nv : Option String) (fs : Bool) :
+    matchSteps .none g st cur pn pr nb nv fs [] = .ok [(st, pn, pr)] := by
   rw [matchSteps]
 
 theorem mapE_map_ok {ε α β γ : Type} (f : α → β) (F : β → Except ε γ) (G : α → γ) : ∀ (xs : List α),
@@ -55,7 +55,7 @@ theorem matchPart_node (g : Graph) (v : String) (kinds : List String) (hn : ∀ 
     simp only [this, ebind_ok]
     cases hk : kindsAllOf n.kinds kinds
     · rfl
-    · have h2 := matchSteps_nil g ⟨[(v, .node n.id)], []⟩ n.id [n.id] [] false (some v)
+    · have h2 := matchSteps_nil g ⟨[(v, .node n.id)], []⟩ n.id [n.id] [] false (some v) true
       simp only [Quirks.none] at h2
       simp only [if_true, h2, ebind_ok, epure_ok, List.map_cons, List.map_nil]
 
